@@ -3,6 +3,8 @@ from vlib import SeqSpec
 
 
 class ScaleSpec(SeqSpec):
+    single_round = True     # the case list does not depend on the scale factor
+    procs = 4               # scenarios are dealt out to 4 runner processes (several of them mostly wait)
     component = "scale"
     checkers = {}
 
@@ -54,6 +56,27 @@ class ScaleSpec(SeqSpec):
         if "pipe" in self.kinds:
             for n in [255, 256, 257, 300, 512]:
                 add({"kind": "pipe", "n": n})
+        hold = 5500 if big else 2600        # ms: how long "still blocked" / "still idle" is observed
+        if "tree-gc" in self.kinds:
+            combos = [(40, "desc", "top", 0, False), (300, "asc", "bottom", 3, False), (1200, "rand", "rand", 10, False),
+                      (600, "asc", "everyother", 0, True), (130, "asc", "top", 120, False), (2500, "desc", "bottom", 0, True)]
+            if big:
+                combos += [(n, o, d, k, True) for n in (17, 260, 5000, 20000) for o in ("asc", "rand") for d in ("top", "rand", "everyother") for k in (0, 9)]
+            for n, o, d, k, rf in combos:
+                add({"kind": "tree-gc", "n": n, "order": o, "drain": d, "keep": k, "refill": rf, "seed": rng.randrange(1 << 30)})
+        if "mapstream-close-busy" in self.kinds:
+            for who in ("f", "src"):
+                for p in (1, 3):
+                    add({"kind": "mapstream-close-busy", "who": who, "p": p, "hold_ms": hold if p == 3 else 40})
+        if "mapstream-ferr-storm" in self.kinds:
+            add({"kind": "mapstream-ferr-storm", "trials": 4000 if big else 200, "p": 24})
+            add({"kind": "mapstream-ferr-storm", "trials": 4000 if big else 200, "p": 3})
+        if "pipe-trysend-storm" in self.kinds:
+            for k, cap in [(8, 1), (6, 2), (16, 3)]:
+                add({"kind": "pipe-trysend-storm", "rounds": 3000 if big else 150, "k": k, "cap": cap})
+        if "pipe-idle-next" in self.kinds:
+            add({"kind": "pipe-idle-next", "cap": 0, "hold_ms": hold})
+            add({"kind": "pipe-idle-next", "cap": 2, "hold_ms": 40})
         return cases
 
     def oracle(self, case, obs):
@@ -80,6 +103,7 @@ class Extras19Spec(SeqSpec):
     """C19 extras (oracle-only): WithStack records the whole call stack also when it is deeper than one batch of
     frames; the default-source Sample functions are not grossly biased (a one-sided 8-sigma test per subset: with
     20000 trials a fair sampler fails it with probability < 1e-13 per run)."""
+    single_round = True     # the case list does not depend on the scale factor
     component = "extras19"
     checkers = {}
 
